@@ -6,7 +6,7 @@ import os
 import z3
 
 Z3_RLIMIT = int(os.environ.get("PYVC_RLIMIT", 40_000_000))
-Z3_TIMEOUT_MS = int(os.environ.get("PYVC_TIMEOUT_MS", 60_000))
+Z3_TIMEOUT_MS = int(os.environ.get("PYVC_TIMEOUT_MS", 120_000 if os.environ.get("VERIF_TIER") == "thorough" else 20_000))
 CVC5 = "/usr/bin/cvc5"
 
 
@@ -14,16 +14,28 @@ def solve(ob, use_cvc5=True):
     """Sets ob.verdict in {'proved','refuted','unknown'} (for expect='sat': 'reachable'/'vacuous'/'unknown')."""
     s = z3.Solver()
     s.set("rlimit", Z3_RLIMIT)
-    s.set("timeout", Z3_TIMEOUT_MS)
+    # reachability checks (cover / canary) only have to rule out vacuity: 'unknown' is acceptable, so they get a short budget
+    s.set("timeout", Z3_TIMEOUT_MS if ob.expect == "unsat" else 2_000)
     s.set("random_seed", 0)
     s.add(*ob.conds)
     if ob.expect == "unsat":
         goal = ob.goal
         # a universally quantified goal is proved for fresh constants (skolemisation done here, not left to the solver)
+        skolems = []
         while z3.is_quantifier(goal) and goal.is_forall():
             vs = [z3.FreshConst(goal.var_sort(i), "sk") for i in range(goal.num_vars())]
+            skolems.extend(vs)
             goal = z3.substitute_vars(goal.body(), *reversed(vs))
         s.add(z3.Not(goal))
+        # help e-matching: instantiate the single-variable universal hypotheses at the goal's skolem constants
+        for c in ob.conds:
+            if z3.is_quantifier(c) and c.is_forall() and c.num_vars() == 1:
+                for sk in skolems:
+                    if sk.sort() == c.var_sort(0):
+                        s.add(z3.substitute_vars(c.body(), sk))
+                        if z3.is_int(sk):          # neighbours too: invariants relate index k with k-1 / k+1
+                            s.add(z3.substitute_vars(c.body(), sk - 1))
+                            s.add(z3.substitute_vars(c.body(), sk + 1))
     t0 = time.time()
     r = s.check()
     ob.seconds = time.time() - t0
